@@ -63,7 +63,14 @@ def vjp_matrices(f, base, req, chunk=384):
         if not live:
             grads = [None] * len(wrt)
         else:
-            grads = torch.autograd.grad([o for o, _ in live], wrt, grad_outputs=[c for _, c in live], allow_unused=True)
+            first = r0 == 0
+            grads = torch.autograd.grad([o for o, _ in live], wrt, grad_outputs=[c for _, c in live], allow_unused=True, retain_graph=first)
+            if first:
+                # "for every cotangent": pulling a second cotangent back through the SAME graph must give the same map
+                again = torch.autograd.grad([o for o, _ in live], wrt, grad_outputs=[c for _, c in live], allow_unused=True)
+                for g1, g2 in zip(grads, again):
+                    if (g1 is None) != (g2 is None) or (g1 is not None and not torch.equal(g1, g2)):
+                        raise AssertionError('second backward pass through the same graph differs from the first')
         k = 0
         for i, rq in enumerate(req):
             if not rq:
